@@ -174,6 +174,18 @@ def run(ctx):
                     okd = not (set(delivered) & r2) and not (set(errs) & r2)
             ctx.check(okd, "DOM", "C03:DOM:flushing-skips-seen", "own keys silently override merged ones (already-seen keys are skipped while flushing)",
                       "while flushing merges an already-seen key is delivered or reported instead of being skipped", config, ctx.where(f, sb))
+        # ... which only works if every own key that reaches the visitor was recorded in the seen-set first, under every policy
+        inserts = [bb for bb, t in f.calls() if last_seg(fx.callee(t)) == "insert" and render(f.sym_operand(t["args"][0])) == "self.seen"]
+        nd = 0
+        for x, i, adt, var, fl, ops, s_ in aggregates(f):
+            if s_["p"]["l"] == 0 and var == "Ok":
+                with f.deep():
+                    v = f.sym_operand(s_["rv"]["ops"][0])
+                if v[0] == "aggr" and v[2] == "Some":
+                    nd += 1
+                    ctx.check(any(f.dominates(ib, x) for ib in inserts), "DOM", "C03:DOM:own-keys-recorded", "every key handed to the visitor was recorded in the seen-set first (unconditionally)",
+                              "a key can reach the visitor without being recorded in the seen-set (e.g. recorded only under some policy): a merged entry with the same key is then not suppressed and overrides the mapping's own value", config, ctx.where(f, x))
+        ctx.floor("DOM.deliveries", nd, 2, config)
         # merge entries on the live path never reach the visitor directly: the merge arm `continue`s
         for bb, t in f.calls():
             if fx.callee(t) == b_.npath:
